@@ -118,6 +118,8 @@ func C01(ctx *core.Ctx) int {
 				case o.Kind == "ERR" && o.ErrKind == "unsupported":
 					// the driver could not build the value: a declared member or type is missing (C07's subject)
 					st.blockers[l+": member/type missing: "+abstractName(o.ErrText)]++
+				case o.Kind == "ERR" && wallClockAnswer(o.ErrText):
+					st.blockers[l+": per-command wall-clock limit of the driver (not a verdict)"]++
 				case o.Kind == "ERR":
 					ctx.Report(fmt.Sprintf("%s|encoder fails|%s|%s", l, errWord(o.ErrText), optsInForce(pc.Prog)),
 						fmt.Sprintf("program %s message %s: %s\n%s", pc.Prog.Name, m.ID, o.ErrText, core.Trunc(pc.Text, 500)), rep)
